@@ -14,6 +14,7 @@ import (
 	"flag"
 	"fmt"
 	"io"
+	"math"
 	"math/rand"
 	"net"
 	"os"
@@ -167,6 +168,12 @@ func (d *scripted) VarlinkDispatch(ctx context.Context, call varlink.Call, metho
 			err = call.Reply(ctx, &rep{st.Tok, p.Pad})
 		case "same":
 			err = call.Reply(ctx, &rep{st.Tok, p.Pad}) // with Continues as the handler left it
+		case "unenc":
+			// parameters that cannot be encoded as JSON
+			err = call.Reply(ctx, map[string]float64{"x": math.NaN()})
+		case "pause":
+			// the handler does something else for a while (a subscriber may vanish meanwhile)
+			time.Sleep(40 * time.Millisecond)
 		case "wait":
 			// wait until every other connection of this scenario is done (bounded: a service that
 			// serialises connections would otherwise hang this handler forever)
